@@ -115,14 +115,22 @@ def lean_obligations(prop, recheck=False):
     return res
 
 
+MEMCRSD_TARGET = os.path.join(WORK, "memcrsd-target")
+
+
 def link_repo():
     """.work/repo -> the repository under test ($VERIF_REPO, default /repo); the harness depends on it by path"""
     os.makedirs(WORK, exist_ok=True)
     ln = os.path.join(WORK, "repo")
     if not (os.path.islink(ln) and os.path.realpath(ln) == REPO):
-        if os.path.islink(ln) or os.path.exists(ln):
+        had = os.path.islink(ln) or os.path.exists(ln)
+        if had:
             os.remove(ln)
         os.symlink(REPO, ln)
+        if had:
+            # another tree under the same path: cargo's mtime fingerprints cannot be trusted, rebuild the crate under test
+            sh(["cargo", "clean", "--offline", "-p", "memcrs"], cwd=HARNESS, timeout=600)
+            shutil.rmtree(MEMCRSD_TARGET, ignore_errors=True)
 
 
 def gen_tables():
